@@ -67,6 +67,9 @@ type Plan struct {
 	// tearing-down it places its finalizer on it (legal: finalizers may be added in any phase), i.e. right
 	// between the controller's Teardown and Destroy of that output.
 	ReactOut []int `json:"reactout,omitempty"`
+	// Cached lists the kinds served from the runtime read cache (0 inputs GA, 1 outputs GB, 2 dependants GC):
+	// controller reads of those kinds lag behind the store by the delivery delays.
+	Cached []int `json:"cached,omitempty"`
 	// DestroyTag (qtransform only): the transform function answers an input whose value starts with "drop" with an
 	// error tagged qtransform.DestroyOutputTag ("output is not needed anymore"): such an input has no image.
 	DestroyTag bool  `json:"destroytag,omitempty"`
@@ -107,6 +110,18 @@ func Gen(ctrls []string) func(t *rapid.T) Plan {
 
 		if strings.HasPrefix(p.Ctrl, "qtransform") {
 			p.DestroyTag = rapid.Bool().Draw(t, "destroytag")
+		}
+
+		if rapid.IntRange(0, 2).Draw(t, "hascache") == 0 {
+			p.Cached = rapid.SliceOfNDistinct(rapid.IntRange(0, 2), 1, 3, rapid.ID[int]).Draw(t, "cached")
+
+			// known findings (see known_findings.json and DESIGN.md 7.3): with a read cache on the input, output or dependant
+			// kind the generic controllers take irreversible decisions (skip an output in cleanup, release a finalizer,
+			// destroy an output) on reads that lag behind the store, their own writes included. While those findings are
+			// open no cached kinds are generated here (the draw above is kept so that plans stay comparable).
+			if hk.KnownOpen("c06-generic-controllers-stale-cached-reads") || hk.KnownOpen("c07-generic-controllers-stale-cached-reads") {
+				p.Cached = nil
+			}
 		}
 
 		if rapid.IntRange(0, 2).Draw(t, "hasreact") == 0 {
@@ -307,7 +322,13 @@ func runBubble(p Plan) *Result {
 		nwrite int
 	)
 
+	var cachedKinds []model.Key
+	for _, c := range p.Cached {
+		cachedKinds = append(cachedKinds, model.Key{NS: "n1", Typ: []string{hres.TypeGA, hres.TypeGB, hres.TypeGC}[c]})
+	}
+
 	w, err := sim.NewWorld(sim.WorldOptions{
+		Cached: cachedKinds,
 		RTLatency: func(_ string, n int) time.Duration {
 			return time.Duration(p.Latency[n%len(p.Latency)]) * time.Millisecond
 		},
